@@ -368,6 +368,10 @@ def run(repo, rep, tier):
     rep.rule("R-C01-4", "sibling implementations (xarray / numpy) agree on tail threshold, coefficients and direction-convention constants")
     rep.rule("R-C01-5", "deep-water closed forms are exactly 1.56/f and 1.56/f^2; the wavenumber polynomial sums all its coefficients")
     rep.rule("R-C01-6", "(shared with C05/C18) bin widths are circular and never cached on the accessor")
+    rep.rule("R-C01-8", "normalised moments (periods, mean direction, spreads, widths) take numerator and denominator over the same band: no energy "
+                        "total from hs() (which adds the high-frequency tail by default) inside a ratio statistic")
+    from .shared import same_band_ratios
+    same_band_ratios(repo, rep, "R-C01-8")
     T = Typing(repo, two_d=True)
     shared_c01(repo, rep, T)
     try:
